@@ -89,9 +89,14 @@ Definition btor_field (a : btor) (e : bytes * bval * bytes) : option btor :=
     match as_list_or_string v with Some l => Some {| b_info := b_info a; b_cdate := b_cdate a; b_announce := b_announce a; b_alist := b_alist a; b_urllist := b_urllist a; b_httpseeds := l |} | None => None end
   else if valid_iface v then Some a else None.
 
+(* the file goes through protocol.LimitBencodeDepth before the decoder: the top-level value may
+   nest at most max_bencode_depth levels *)
+Definition entries_depth (es : list (bytes * bval * bytes)) : N :=
+  1 + fold_right (fun e m => N.max (vdepth (snd (fst e))) m) 0 es.
+
 Definition decode_btor (bs : bytes) : option btor :=
   match top_entries bs with
-  | Some es => fold_opt btor_field btor_zero es
+  | Some es => if max_bencode_depth <? entries_depth es then None else fold_opt btor_field btor_zero es
   | None => None
   end.
 
@@ -145,7 +150,7 @@ Definition binfo_field (a : binfo) (kv : bytes * bval) : option binfo :=
   else if valid_iface v then Some a else None.
 
 Definition decode_binfo (info : bytes) : option binfo :=
-  match bdecode info with
+  match bdecode_lim info with
   | BOk (BDict kvs) _ _ => fold_opt binfo_field binfo_zero kvs
   | _ => None
   end.
